@@ -824,7 +824,10 @@ def _finalize_parse_info(text, nodes, pos, fullparse):
 
     for node in visit(nodes):
         pos_info = node._metadata.position_info
-        if pos_info:
+
+        # Skip the objects that a nested parse has already finalized. (A Python
+        # expression can call `parse` and put the result into our result.)
+        if pos_info and not isinstance(pos_info, _PositionInfo):
             start, end = pos_info
             # The end is inclusive. (An empty match ends where it starts.)
             end = max(start, end - 1)
